@@ -38,8 +38,16 @@ func Parse(source string) (expr Expression, err error) {
 	return &expression{p.val}, nil
 }
 
+// maxExpressionLength bounds the source text of one expression. Chains of properties, indices and operators are
+// evaluated recursively; tens of megabytes of them grow the goroutine stack past the runtime's limit, which ends
+// the process and cannot be recovered.
+const maxExpressionLength = 1 << 20
+
 func parse(source string) (p *parseValue, err error) {
 	verifhook.Step(verifhook.SiteExprParse)
+	if len(source) > maxExpressionLength {
+		return nil, SyntaxError(fmt.Sprintf("expression of %d bytes is longer than %d bytes", len(source), maxExpressionLength))
+	}
 	defer func() {
 		if r := recover(); r != nil {
 			switch e := r.(type) {
